@@ -28,11 +28,11 @@ LEVEL_NOTE = ('Only cube packages fitted at tabulated wavelengths are covered (t
 RULE = ("cases: package configurations; executions: one plot() call per (n selected, display mode, input form), one evaluation per (fit, filter) point compared; non-trivial = distinct "
         "(configuration, n selected, mode, form) with more than one curve or more than one selected fit")
 ASSUMPTIONS = ["results come from cube packages fitted at tabulated wavelengths", "tolerance 2e-3 for the rounded physical constants"]
-REQUIRED_CLASSES = ['negative-reported-A_V', 'model-names-that-are-prefixes-of-one-another', 'largest-beam-beyond-the-table', 'law-queried-then-regridded-before-the-fit', 'whole-curve-identity', 'best-fit-exactly-tied', 'invalid-rows-before-selected-models', 'model-names-sharing-their-first-31-characters', 'mode-interp', 'mode-largest', 'mode-largest+smallest', 'mode-all', 'multi-aperture', 'single-aperture', 'mixed-theta', 'form-object', 'form-file', 'five-fits',
+REQUIRED_CLASSES = ['negative-reported-A_V', 'model-names-that-are-prefixes-of-one-another', 'largest-beam-beyond-the-table', 'law-queried-then-regridded-before-the-fit', 'whole-curve-identity', 'best-fit-exactly-tied', 'invalid-rows-before-selected-models', 'model-names-sharing-their-first-31-characters', 'mode-interp', 'mode-largest', 'mode-largest+smallest', 'mode-all', 'multi-aperture', 'single-aperture', 'mixed-theta', 'form-object', 'form-file', 'five-fits', 'cube-stored-in-single-precision',
                     'distance-dependent', 'distance-independent', 'cube-wav-ascending', 'several-sources-one-call', 'apertures-stored-decreasing', 'cube-in-Jy', 'second-package-same-names', 'same-call-twice', 'law-in-other-unit', 'filter-wavelengths-in-mixed-units']
 TIMEOUT = {'quick': 600, 'thorough': 3000}
 
-AXES = {'n_ap': [3, 1], 'sord': ['wav-desc', 'wav-asc'], 'theta': ['mixed', 'uniform', 'wide'], 'memmap': [True, False], 'avr': [(0.0, 5.0), (2.0, 2.0), (-3.0, -1.0)], 'ap_order': ['inc', 'dec'], 'funit': ['mJy', 'Jy'], 'wunit': ['micron', 'first-in-Angstrom'], 'law': ['power', 'nonmono@nm']}
+AXES = {'n_ap': [3, 1], 'sord': ['wav-desc', 'wav-asc'], 'theta': ['mixed', 'uniform', 'wide'], 'memmap': [True, False], 'avr': [(0.0, 5.0), (2.0, 2.0), (-3.0, -1.0)], 'ap_order': ['inc', 'dec'], 'funit': ['mJy', 'Jy'], 'wunit': ['micron', 'first-in-Angstrom'], 'law': ['power', 'nonmono@nm'], 'cdtype': ['f8', 'f4']}
 WAV = np.array([24.0, 8.0, 4.5, 2.2, 1.0])
 BANDS = [0, 2, 4]
 MODES = ['interp', 'largest', 'largest+smallest', 'all']
@@ -217,8 +217,10 @@ def run_case(ctx, case, rec, d):
         rec.cls('apertures-stored-decreasing')
     if fun == 'Jy':
         rec.cls('cube-in-Jy')
+    if case.get('cdtype') == 'f4':
+        rec.cls('cube-stored-in-single-precision')          # what large published grids use; intermediate products must not leave its range
     pkgwriter.write_cube(md, names, WAV[::order], val[:, aord, ::order] * fsc, unc=val[:, aord, ::order] * 0.01 * fsc, unit=fun,
-                         apertures_au=aps[aord] if (apdep or n_ap > 1) else None)
+                         apertures_au=aps[aord] if (apdep or n_ap > 1) else None, float32=(case.get('cdtype') == 'f4'))
     theta = [1.0, 3.0, 2.0] if case['theta'] == 'mixed' else [1.0, 1.0, 1.0]
     if case['theta'] == 'wide':
         theta = [1.0, 12.0, 2.0]          # the largest beam reaches beyond the tabulated apertures (9000 AU) at most trial distances, the others stay inside
